@@ -777,7 +777,7 @@ class Interp:
         if isinstance(obj, BuiltinRef) and obj.name == 'str':
             return BuiltinRef('str.' + name)
         if is_str(obj) or isinstance(obj, (PList, PDict, tuple, PIter)) or is_int(obj) or is_bool(obj) \
-                or isinstance(obj, (self.bm.SymSeq, self.bm.UStr)):
+                or isinstance(obj, (self.bm.SymSeq, self.bm.UStr)) or type(obj).__name__ == 'MatchObj':
             return BuiltinMethod(obj, name)
         raise Unsupported('getattr %r . %s' % (type(obj).__name__, name))
 
@@ -850,6 +850,8 @@ class Interp:
                 return c.truth(sym.i_cmp('!=', v.index, 0))
             return True
         if isinstance(v, (ClassRef, FuncRef, BoundMethod, BuiltinRef, BuiltinMethod, ModuleRef, PSlice, TypeVal, NativeFn)):
+            return True
+        if type(v).__name__ == 'MatchObj':
             return True
         raise Unsupported('truth of %r' % (type(v),))
 
